@@ -20,7 +20,7 @@
 EXTENDS Select, TLC, Json, IOUtils
 Rows == ndJsonDeserialize(IOEnv.TRACE_FILE)
 \* models the unrepaired FeatureListParser.parse (join with the unstripped line); only used for DIVERGE lines
-ListJoinsUnstripped == TRUE
+ListJoinsUnstripped == FALSE
 
 VARIABLE i
 Init == i = 1
